@@ -94,7 +94,7 @@ def case_peak_1d(ctx, nf, grid, layout, band, nanmask=None, depthkind="inf"):
             depth = depth
     s = C.make_1d(ctx, f, e, layout, a1=a1, b1=b1, a2=a1 * 0, b2=b1 * 0, depth=depth)
     fmin, fmax = C.band(ctx, band)
-    idxv = C.values(s.peak_index(fmin, fmax))
+    idxv = C.values(ctx.noraise("D-IDX.raise", s.peak_index, fmin, fmax))
     idx = C.in_band_indices(f, fmin, fmax)
     E = e.reshape(-1, nf)
     A1, B1 = a1.reshape(-1, nf), b1.reshape(-1, nf)
@@ -126,7 +126,7 @@ def case_peak_1d(ctx, nf, grid, layout, band, nanmask=None, depthkind="inf"):
     if ctx.mode == "sym":
         ctx.patch(S, "inverse_intrinsic_dispersion_relation", _kstub)
     k = C.values(ctx.noraise("D-K.raise", lambda: s.peak_wavenumber))
-    i0 = C.values(s.peak_index())
+    i0 = C.values(ctx.noraise("D-IDX.raise", s.peak_index))
     cw = C.values(ctx.noraise("D-K.raise", s.peak_wave_speed))
     for p in range(npts):
         d = dvals[p]
@@ -158,7 +158,7 @@ def case_peak_2d(ctx, nf, nd, layout, band):
         ctx.assume(ctx.le(0, x))
     s = C.make_2d(ctx, f, d, E, layout)
     fmin, fmax = C.band(ctx, band)
-    idxv = C.values(s.peak_index(fmin, fmax))
+    idxv = C.values(ctx.noraise("D-IDX.raise", s.peak_index, fmin, fmax))
     idx = C.in_band_indices(f, fmin, fmax)
     Ef = E.reshape(-1, nf, nd)
     width = 360.0 / nd if ctx.mode == "conc" else SR(core.Fraction(360, nd))
